@@ -275,6 +275,19 @@ fn gen_item(rng: &mut Rng, k: usize) -> GenItem {
             value = Some(format!("{name} {{ kept: 5 }}"));
         }
     }
+    // visibility is part of the item, not of the attribute: restricted forms (a parenthesised group after `pub`) must come
+    // through like the plain one, for every item kind
+    if rng.chance(1, 3) {
+        let vis = *rng.pick(&["pub(crate)", "pub(in crate)", "pub(crate)", "pub(in self)"]);
+        let vis = if vis == "pub(in self)" && value.is_some() { "pub(crate)" } else { vis };
+        for kw in ["struct", "enum", "union", "type", "const"] {
+            let from = format!("pub {kw} {}", if kw == "const" { name.to_uppercase() } else { name.clone() });
+            if let Some(pos) = a.find(&from) {
+                a.replace_range(pos..pos + 3, vis);
+                break;
+            }
+        }
+    }
     let derives = match kind {
         "union" | "alias" | "const" => "",
         "struct" if lifetime => derive_nolt,
